@@ -47,6 +47,15 @@ def depth_suite(rng, tier):
             e.append(("pluc", pad))
             row = dict(cfa=("e", e), fp=("s",), ra=("o", -8))
             fdes.append(dict(start=0x1000 + 0x100 * i, len=0x100, rows=[(0, row)]))
+        # expressions in the other positions (return address, frame pointer; location and value forms): each evaluation
+        # has its own storage parameter
+        gran = 8 if arch == "x86" else 16
+        xrows = [dict(cfa=("r", R["sp"], 2 * gran), fp=("s",), ra=("e", [("breg", R["sp"], 8)])),
+                 dict(cfa=("r", R["sp"], 2 * gran), fp=("ve", [("breg", R["fp"], 0)]), ra=("o", -8)),
+                 dict(cfa=("r", R["sp"], 2 * gran), fp=("e", [("breg", R["sp"], 0)]), ra=("ve", [("breg", R["sp"], 0x11940 - 0x7000)])),
+                 dict(cfa=("e", [("breg", R["sp"], 2 * gran)]), fp=("e", [("breg", R["sp"], 0)]), ra=("e", [("breg", R["sp"], 8)]))]
+        for j, row in enumerate(xrows):
+            fdes.append(dict(start=0x1000 + 0x100 * (len(depths) + j), len=0x100, rows=[(0, row)]))
         s.module_dwarf("M", 0x10000, 0x20000, 0x10000, 0, pres, fdes, rng)
         s.add("new U"); s.add("add U M"); s.add("newcache C")
         base = 0x7000
@@ -59,6 +68,11 @@ def depth_suite(rng, tier):
                 ln = s.add("unwind U C %s %s %s S" % (kind, hx(pc + (1 if kind == "ra" else 0)), regs),
                            tag="depth:%s:%s:%d:%s" % (arch, pres, d, kind))
                 s.meta[ln] = {"depth": d}
+        for j in range(len(xrows)):
+            pc = 0x11000 + 0x100 * (len(depths) + j) + 0x10
+            regs = s.regs_x86(pc, base, base + 0x100) if arch == "x86" else s.regs_a64(M64, 0x11f00, base, base + 0x100)
+            for kind in ("ip", "ra"):
+                s.add("unwind U C %s %s %s S" % (kind, hx(pc + (1 if kind == "ra" else 0)), regs), tag="exprpos:%s:%s:%d:%s" % (arch, pres, j, kind))
         # and the iterator over the same frames
         s.add("iter U C 0x11010 %s S 4 0" % (s.regs_x86(0x11010, base, base + 0x100) if arch == "x86" else s.regs_a64(M64, 0x11f00, base, base + 0x100)),
               tag="depth-iter:%s:%s" % (arch, pres))
